@@ -78,6 +78,7 @@ structure St where
   routes : List RouteSpec := []
   ord : Crng.Ord.M := []
   bad : List (Bytes × Bytes × String) := []      -- key ↦ (line, kind), unsorted
+  pending : List (Nat × String) := []            -- aggregator emissions not yet pumped (parked aggregators)
 
 def isRegexLit (b : Bytes) : Option Bytes :=
   if b.length > 1 && b.head? == some 47 && b.getLast? == some 47 then some ((b.drop 1).take (b.length - 2)) else none
@@ -156,7 +157,19 @@ def insertStr (x : String) : List String → List String
   | [] => [x]
   | y :: t => if x < y then x :: y :: t else y :: insertStr x t
 
-def handleIn (s : St) (line : Bytes) (bits ts : Nat) : St × List String :=
+/-- route the (already sorted per aggregator) emissions through `dispatchAggregate`, as the relay does with aggregator output -/
+def routeEmissions (s : St) (ems : List (Nat × String)) : List String :=
+  let c := toCfg s
+  ems.flatMap fun (i, l) =>
+    let lb := strBytes l
+    let ra := Crng.Tb.dispatchAggregate c (fun b => b.takeWhile (· != 32)) lb
+    s!"a {i} {hex lb} unr={if ra.unroutable then 1 else 0}" :: showHits s "ad" ra.hits lb
+
+def sortedEmissions (s : St) (ems : List (Nat × String)) : List (Nat × String) :=
+  (List.range s.aggSpecs.length).flatMap fun i =>
+    ((ems.filter (·.1 == i)).foldl (fun acc e => insertStr e.2 acc) []).map fun l => (i, l)
+
+def handleIn (s : St) (line : Bytes) (bits ts : Nat) (defer : Bool := false) : St × List String :=
   let (key, verr) := Crng.Val.validatePacket line s.legacy s.m20
   match verr with
   | some e => ({ s with bad := addBad s.bad key line (errKind e) }, ["res in=1 inv=1 ooo=0 bl=0 unr=0"])
@@ -178,13 +191,10 @@ def handleIn (s : St) (line : Bytes) (bits ts : Nat) : St × List String :=
         -- aggregator emissions, in aggregator order, each routed through dispatchAggregate
         let ems := (r.aggIn.flatMap fun i =>
           match s.aggSpecs[i]? with
-          | some a => ((aggEmit a name' bits ts).foldl (fun acc l => insertStr l acc) []).map fun l => (i, l)
+          | some a => (aggEmit a name' bits ts).map fun l => (i, l)
           | none => [])
-        let agglines := ems.flatMap fun (i, l) =>
-          let lb := strBytes l
-          let ra := Crng.Tb.dispatchAggregate c (fun b => b.takeWhile (· != 32)) lb
-          s!"a {i} {hex lb} unr={if ra.unroutable then 1 else 0}" :: showHits s "ad" ra.hits lb
-        (s, res :: direct ++ agglines)
+        if defer then ({ s with pending := s.pending ++ ems }, res :: direct)
+        else (s, res :: direct ++ routeEmissions s (sortedEmissions s ems))
 
 def handleAggIn (s : St) (line : Bytes) : List String :=
   let c := toCfg s
@@ -218,14 +228,19 @@ partial def loop (h : IO.FS.Stream) (s : St) : IO Unit := do
       | [] => loop h s
     | ["build"] => IO.println "built"; loop h s
     | [op, l, bits, ts] =>
-      if op == "in" || op == "inm" then
-        let (s', out) := handleIn s (arg l) bits.toNat! ts.toNat!
+      if op == "in" || op == "inm" || op == "inx" || op == "inmx" then
+        let (s', out) := handleIn s (arg l) bits.toNat! ts.toNat! (op == "inx" || op == "inmx")
         for o in out do IO.println o
         loop h s'
       else loop h s
     | ["aggin", l] =>
       for o in handleAggIn s (arg l) do IO.println o
       loop h s
+    | ["park"] => loop h s
+    | ["unpark"] => loop h s
+    | ["pump"] =>
+      for o in routeEmissions s (sortedEmissions s s.pending) do IO.println o
+      loop h { s with pending := [] }
     | ["bad"] =>
       let sorted := s.bad.foldl (fun acc x => insertBad x acc) []
       for (k, l, kind) in sorted do IO.println s!"bad {hexOrDash k} {hexOrDash l} {kind}"
